@@ -29,6 +29,30 @@ class C16(Prop):
         f = lang.gen_formula(rng, c)
         names = lang.variables(f) or [c.vars[0]]
         w1 = lang.gen_signals(rng, names)
+        quiet = rng.random() < 0.25
+        if quiet:
+            # quiet tail: the signals move during an initial stretch only and then hold their values for much longer than
+            # any window of the formula (the results of computed operands - stored without repeated values - end long
+            # before the recording does); the extension moves them again.  Half of the cases: a bounded past operator
+            # directly above a computed operand
+            N, V, C = lang.N, lang.V, lang.C
+            if rng.random() < 0.5:
+                a, b = V(names[0]), V(names[-1])
+                opd = rng.choice([N('and', a, b), N('sub', b, a), N('geq', a, C(1.0)), N('or', N('leq', a, C(0.5)), b),
+                                  N('abs', N('sub', a, b))])
+                lo = Fr(rng.choice([0, 0, 1, 2, 4]), 4)
+                iv = (lo, lo + Fr(rng.choice([2, 4, 6, 8, 12]), 4))
+                o = rng.choice(['once', 'historically', 'since'])
+                f = N(o, N('geq', b, C(0.0)), opd, ivl=iv) if o == 'since' else N(o, opd, ivl=iv)
+                if rng.random() < 0.3:
+                    f = N(rng.choice(['and', 'or']), f, N('geq', a, C(0.0)))
+                names = lang.variables(f)
+            w1 = {}
+            tail = Fr(rng.choice([16, 24, 40, 60]), 4)
+            for k in names:
+                s0 = lang.gen_signal(rng, n=rng.choice([2, 3, 4, 5]), start=Fr(0), step=Fr(1, 4))
+                s0 = [(t, val) for (t, val) in s0 if t <= Fr(3)] or s0[:1]
+                w1[k] = s0 + [(s0[-1][0] + tail, s0[-1][1])]
         w2 = {}
         for k in names:
             t = w1[k][-1][0]
@@ -37,7 +61,7 @@ class C16(Prop):
                 t = t + Fr(rng.choice([1, 2, 3, 4, 8]), 4)
                 ext.append((t, rng.choice([-64.0, 64.0]) if rng.random() < 0.5 else rng.choice(lang.SMALL)))
             w2[k] = list(w1[k]) + ext
-        return {'dense': True, 'formula': f, 'w1': sig_text(w1), 'w2': sig_text(w2)}
+        return {'dense': True, 'formula': f, 'w1': sig_text(w1), 'w2': sig_text(w2), 'quiet': quiet}
 
     def judge_dense(self, case):
         from fractions import Fraction as Fr
@@ -58,6 +82,8 @@ class C16(Prop):
         end1 = min(s[-1][0] for s in w1.values())
         hi = end1 - Fr(h)
         v.info['dense'] = 1
+        if case.get('quiet'):
+            v.info['class:dense-quiet-tail'] = 1
         if hi <= start:
             v.skip = 'empty settled region'
             return v
